@@ -2,6 +2,25 @@
 import itertools
 
 
+def _well_formed(kinds):
+    cols = {"a", "b", "c"}
+    for k in kinds:
+        need = {"fk1": "b", "fkbb": "bb", "fkd": "d", "rename": "b", "rend": "d", "drop": "b", "dropd": "d"}.get(k)
+        if need and need not in cols:
+            return False
+        if k == "add":
+            if "d" in cols:
+                return False
+            cols.add("d")
+        elif k == "rename":
+            cols.discard("b"), cols.add("bb")
+        elif k == "rend":
+            cols.discard("d"), cols.add("dd")
+        elif k == "drop":
+            cols.discard("b")
+    return True
+
+
 def inputs(tier="quick"):
     from .props import c01, c02, c04, c09, c11, c17, c18
 
@@ -26,12 +45,16 @@ def inputs(tier="quick"):
     # C04: every kind on the full table set
     base = "\n".join(c04.TABLES[x][2] for x in c04.TKEYS) + "\n"
     for k in c04.KINDS:
+        if not _well_formed([k]):
+            continue
         for tgt in ("s1.t", "S3.T"):
             out.append(("c04", base + c04.stmt([k, tgt, "asis", "asis", "asis"])))
     # C04: every pair and triple of the statements that edit the column list of one table (incl. keys over renamed / added columns)
     one = c04.TABLES["t"][2] + "\n" + c04.TABLES["u"][2] + "\n"
     for n in (2, 3):
         for ks in itertools.product(["add", "rename", "rend", "drop", "fk1", "fkbb", "fkd"], repeat=n):
+            if not _well_formed(ks):
+                continue  # a key over a column that does not exist (any more) is not well-formed DDL
             hist = "\n".join(c04.stmt([k, "t", "asis", "asis", "asis"]) for k in ks)
             dial_h = ("c04h", one + hist)
             out.append(dial_h) if tier == "thorough" else None
